@@ -34,6 +34,7 @@ type VerifyOpts struct {
 	ExtraPre   func(f *Frame, st *State) []*Term
 	NoContract bool // ignore the function's own contract clauses except nopanic-relevant loops
 	OnlyKinds  []string // keep only obligations of these kinds (the others belong to another property)
+	OnlyNames  []string // keep only obligations whose name contains one of these substrings (partial claim of a function)
 	Sweep      bool // safety sweep: standing preconditions (non-nil pointer receiver, non-nil function parameters)
 }
 
@@ -66,6 +67,18 @@ func (e *Engine) VerifyFunc(fn *ssa.Function, opts VerifyOpts) (res *FuncResult)
 				for _, k := range opts.OnlyKinds {
 					if o.Kind == k {
 						kept = append(kept, o)
+					}
+				}
+			}
+			res.Obligs = kept
+		}
+		if len(opts.OnlyNames) > 0 {
+			var kept []*Oblig
+			for _, o := range res.Obligs {
+				for _, k := range opts.OnlyNames {
+					if strings.Contains(o.Name, k) {
+						kept = append(kept, o)
+						break
 					}
 				}
 			}
